@@ -49,7 +49,7 @@ def line(fields):
 
 class C14(Property):
     id = "C14"
-    lean_module = "RosuModel.Props.C14"
+    lean_module = "RosuModel.Props.C14Split"   # imports Props/C14.lean; both files are in namespace Rosu.C14
     namespace = "Rosu.C14"
     design_ref = "5.14"
     required_theorems = ["kind_precedence", "maskedType_bits", "unknown_type_rejected", "bad_header_rejected", "accepted_pushes_one",
@@ -58,10 +58,21 @@ class C14(Property):
                          "slider_fields", "length_absent", "length_present", "length_bad_rejects", "spinner_fields", "max_zero_nonneg",
                          "position_truncated", "perfect_three_collinear_linear", "perfect_three_noncollinear_kept", "perfect_other_bezier",
                          "non_perfect_unchanged", "soundType_range", "sound_byte_to_samples", "addition_names", "filename_sample",
-                         "base_sample_layered", "bank_info_fields"]
+                         "base_sample_layered", "bank_info_fields",
+                         # Props/C14Split.lean: the duplicate-splitting loop of convert_points
+                         "splitLoop_step", "splitLoop_exit", "splitLoop_flush", "splitLoop_spec", "convertPoints_unfold", "convertPoints_spec",
+                         "isSplit_iff", "duplicate_dropped", "duplicate_types_previous", "no_split_unchanged",
+                         "catmull_no_split_after_first", "no_split_at_segment_end", "no_split_beyond_limit", "emitRange_congr",
+                         "first_point_origin_typed", "segment_end_point_shared",
+                         "pathLoop_eq", "convertSegments_eq", "convertFrom_eq_run", "convertFrom_empty_fails", "convertPathStr_spec"]
     partial_theorems = {
-        "path splitting (duplicate_splits, segment_end_point_shared, first_point_origin_typed)": "the splitting loop of convert_points is modelled (splitLoop) and compared "
-            "with the code and with the independent reference grammar on every run, but its closed-form characterisation is not proved in Lean",
+        "path splitting": "proved in closed form: convertPathStr_spec (the path string is cut before every piece that starts with an ASCII letter, each segment is handed the "
+            "piece after the next type piece as its end point, an empty piece fails, failure clears curve_points) and, per segment, splitLoop_spec / convertPoints_spec "
+            "(the control points appended are the vertices below len − end_point_len whose index is not a split index, typed iff the next index is one), with the clauses "
+            "first_point_origin_typed, duplicate_dropped / duplicate_types_previous, catmull_no_split_after_first, no_split_at_segment_end, segment_end_point_shared. "
+            "convertPoints_spec assumes the segment has a vertex of its own (first segment, or at least one point after the type letter); a later segment consisting of a type "
+            "letter only can only be reached after its predecessor failed to read that letter as its end point, which holds for Rust's float grammar but is not provable for an "
+            "abstract Scalar.parse, so the two statements are not composed into one formula for the whole string",
         "max_zero_nonneg / durations": "proved from three order facts about `<` (irreflexive, asymmetric, false on NaN) taken as hypotheses; the hold duration "
             "`max(start,end) - start ≥ 0` additionally needs field laws and is only exercised",
     }
@@ -69,7 +80,10 @@ class C14(Property):
                   "circle > slider > spinner > hold on the masked type (combo bits cleared, kind bits untouched), unknown type or bad header ⇒ rejected without effect, "
                   "an accepted line pushes exactly one object of the selected class with the line's start time and remembers the masked type, combo offset only with the "
                   "new-combo bit, forced new combo for first object / after spinner, repeat cap 9000, repeats+2 node sample sets, length none/some rule, spinner duration "
-                  "max(end-start,0), position = truncated f32 parse, perfect-curve downgrade rules, hit-sound byte → sample list, bank field semantics. Tied to the code by a "
+                  "max(end-start,0), position = truncated f32 parse, perfect-curve downgrade rules, hit-sound byte → sample list, bank field semantics; the duplicate-splitting loop of "
+                  "convert_points in closed form (Props/C14Split.lean: split indices = repeated vertex, not Catmull beyond index 1, not the segment's last vertex; the repeated "
+                  "vertex is dropped and its predecessor typed — so a run of k equal points keeps one; first point of a path = origin with the effective type; the handed-over "
+                  "end point enters the perfect-curve test only). Tied to the code by a "
                   "field-wise differential through the public parse_hit_objects (all 256 type bytes, all 256 sound bytes, extras/path/edge shapes, sequences), and judged "
                   "by an independent reference parser written from the legacy grammar (lib/refho.py).")
     technique = "Lean 4 proof (decision-logic theorems over the hit-object line parser model) + field-wise differential correspondence"
